@@ -67,6 +67,10 @@ pub struct GenCfg {
     pub max_variants: usize,
     pub readonly: bool,
     pub keyword_item_names: bool,
+    /// item names that are legal Rust but not UpperCamelCase (`user_id`, `_LegacyTag`)
+    pub odd_item_names: bool,
+    /// field identifiers that are not lower-case but whose snake_case form is a target keyword (`From`, `Class`)
+    pub capital_kw_fields: bool,
     /// foreign (not typeshared) type names usable in type expressions: Uuid, ForeignThing, ForeignGen<T>
     pub foreign_types: bool,
     /// items may only reference items that come earlier in a hidden order (acyclic reference graph)
@@ -103,6 +107,8 @@ impl GenCfg {
             max_variants: 5,
             readonly: false,
             keyword_item_names: false,
+            odd_item_names: false,
+            capital_kw_fields: false,
             foreign_types: false,
             dag: false,
         }
@@ -170,6 +176,9 @@ pub fn ty_strategy(ctx: &TyCtx, depth: u32) -> BoxedStrategy<Ty> {
                     Ty::Opt(_) => Ty::Qual(vec!["std".into(), "option".into()], Box::new(t)),
                     Ty::User { .. } => Ty::Qual(vec!["crate".into(), "types".into()], Box::new(t)),
                     Ty::Prim(Prim::String) => Ty::Qual(vec!["std".into(), "string".into()], Box::new(t)),
+                    Ty::Prim(Prim::I54 | Prim::U53) => Ty::Qual(vec!["typeshare".into()], Box::new(t)),
+                    Ty::Prim(Prim::Unit | Prim::Str) => t,
+                    Ty::Prim(_) => Ty::Qual(vec![if matches!(t, Ty::Prim(Prim::Bool | Prim::U32)) { "core".into() } else { "std".into() }, "primitive".into()], Box::new(t)),
                     _ => t,
                 })
                 .boxed(),
@@ -241,6 +250,9 @@ fn field_names(g: &GenCfg, n: usize) -> BoxedStrategy<Vec<(String, bool)>> {
     if g.kw_fields {
         pool.extend(RAW_FIELD_NAMES.iter().map(|s| (s.to_string(), true)));
         pool.extend(TARGET_KW_FIELD_NAMES.iter().map(|s| (s.to_string(), false)));
+    }
+    if g.capital_kw_fields {
+        pool.extend(["From", "In", "Class", "Is", "Def", "Lambda", "Import", "Func", "Var"].iter().map(|s| (s.to_string(), false)));
     }
     // bias: plain names three times as likely as keyword names
     let plain: Vec<(String, bool)> = FIELD_NAMES.iter().map(|s| (s.to_string(), false)).collect();
@@ -350,6 +362,9 @@ pub fn skeleton(g: &GenCfg) -> BoxedStrategy<Vec<Skel>> {
     let mut names: Vec<&'static str> = ITEM_NAMES.to_vec();
     if g.keyword_item_names {
         names.extend(["Type", "Protocol"]);
+    }
+    if g.odd_item_names {
+        names.extend(["user_id", "_LegacyTag", "lowercase", "snake_case_item"]);
     }
     (g.min_items..=g.max_items)
         .prop_flat_map(move |n| {
@@ -567,7 +582,59 @@ pub fn program(g: &GenCfg) -> BoxedStrategy<Vec<Item>> {
         .prop_flat_map(move |skel| (0..skel.len()).map(|i| item_strategy(&g, &skel, i)).collect::<Vec<_>>())
         .prop_map(|mut items| {
             dedup_keys(&mut items);
+            use_alias_params(&mut items);
             items
         })
         .boxed()
+}
+
+/// `type A<T> = bool;` and `struct A<T>(bool);` are not Rust (E0091 / E0392: type parameter never used): a generic alias
+/// or newtype drops the parameters its target does not mention, and every reference to it drops the matching arguments.
+fn use_alias_params(items: &mut [Item]) {
+    let mut masks: Vec<(String, Vec<bool>)> = vec![];
+    for it in items.iter_mut() {
+        if it.generics.is_empty() {
+            continue;
+        }
+        let target = match &it.kind {
+            Kind::Alias { ty } => Some(ty),
+            Kind::Struct { shape: Shape::Newtype(ty), .. } => Some(ty),
+            _ => None,
+        };
+        if let Some(ty) = target {
+            let mut used: Vec<String> = vec![];
+            ty.walk(&mut |t| {
+                if let Ty::Param(p) = t {
+                    used.push(p.clone());
+                }
+            });
+            let mask: Vec<bool> = it.generics.iter().map(|g| used.contains(g)).collect();
+            if mask.iter().all(|b| *b) {
+                continue;
+            }
+            let kept: Vec<String> = it.generics.iter().zip(&mask).filter(|(_, k)| **k).map(|(g, _)| g.clone()).collect();
+            it.generics = kept;
+            masks.push((it.name.clone(), mask));
+        }
+    }
+    if masks.is_empty() {
+        return;
+    }
+    for it in items.iter_mut() {
+        for_types_mut(it, &mut |t| {
+            t.walk_mut(&mut |x| {
+                if let Ty::User { name, args } = x {
+                    if let Some((_, mask)) = masks.iter().find(|(n, _)| n == name) {
+                        if args.len() == mask.len() {
+                            let mut k = 0;
+                            args.retain(|_| {
+                                k += 1;
+                                mask[k - 1]
+                            });
+                        }
+                    }
+                }
+            })
+        });
+    }
 }
